@@ -12,6 +12,7 @@ import math
 from hypothesis import strategies as st
 
 from vlib.core import Sub
+from checks.c20parts._walkguard import guard
 
 ASSUMPTIONS = [
     'bone names are ASCII without double quote, line breaks or the comment introducers "#", ";", "//" (the reader '
@@ -410,30 +411,35 @@ def execute(desc, ctx):
         else:
             mesh = Mesh.build_bbox(desc['root'], desc['mat'], Vec(*desc['mins']), Vec(*desc['maxs']))
             ctx.label('ctor:build_bbox')
-        want = walk(mesh)
+        want = guard(ctx, 'constructors', walk, mesh)
+        if want is None:
+            return
         single_bone = True
         ctx.nontrivial(True)
     else:
         bones, frames, tris = resolve(desc)
         ctx.nontrivial(classify(bones, frames, tris, ctx))
         mesh = build(bones, frames, tris)
-        want = walk(mesh)
+        want = guard(ctx, 'constructors', walk, mesh)
+        if want is None:
+            return
         # The constructed mesh must be what was asked for (exactly; only Angle normalisation may act, and the
         # generator keeps angles in [0, 360)).
         asked = {'bones': dict(bones), 'frames': frames, 'tris': tris, 'problems': []}
-        dd = compare(asked, want, exact=True)
+        dd = guard(ctx, 'constructors', compare, asked, want, exact=True)
         ctx.check(not dd, 'constructors', f'constructed Mesh differs from the request: {dd!r}')
         single_bone = len(bones) == 1
 
     buf = io.BytesIO()
     mesh.export(buf)
     data = buf.getvalue()
-    dd = compare(want, walk(mesh), exact=True)
+    dd = guard(ctx, 'no_mutation', lambda: compare(want, walk(mesh), exact=True))
     ctx.check(not dd, 'no_mutation', f'export() changed the Mesh: {dd!r}')
 
     parsed = Mesh.parse_smd(io.BytesIO(data).readlines())
-    got = walk(parsed)
-    dd = compare(want, got, exact=False)
+    dd = guard(ctx, 'roundtrip', lambda: compare(want, walk(parsed), exact=False))
+    if dd is None:
+        return
     fields = sorted({f.rsplit('.', 1)[-1] for f, _, _ in dd})
     max_links = max([len(v[4]) for _, vs in want['tris'] for v in vs], default=0)
     if not ctx.check(not dd, 'roundtrip',
